@@ -177,7 +177,10 @@ def run(ctx, replay_case):
         pass
     # example
     # type names: types that other declared types derive from (an example of a derived type is not an example of X) and others
-    tnames = list(L["structures"])      # the names the command line accepts as types (tpmstream.spec.all_types)
+    # the names the command line accepts as types (tpmstream.spec.all_types); unions are left out: an example of a union can
+    # not be re-decoded on its own (its member is chosen by a selector that lives outside it), so "re-decodes to what is shown"
+    # is not checkable for them
+    tnames = [x for x in L["structures"] if L["types"][x]["kind"] != "union"]
     parents = [n for n in ("TPM2B_DIGEST", "TPM_HANDLE", "TPM_ALG_ID", "TPMS_SCHEME_HASH", "UINT8", "UINT16", "UINT32", "TPM_ST",
                            "TPMS_EMPTY", "TPM2B_PUBLIC", "TPMT_PUBLIC") if n in tnames]
     allcc = [n for n, _ in L["cc"]]
